@@ -155,6 +155,15 @@ func init() {
 	intrinsics["(encoding/binary.littleEndian).AppendUint64"] = appendLE(8)
 	intrinsicDoc["(encoding/binary.littleEndian).AppendUint32"] = "append(b, the 4 little-endian bytes of v)"
 
+	intrinsics["math/bits.Mul64"] = func(fr *Frame, st *State, args []*Val, pos token.Pos) []*Val {
+		x := fr.x
+		p := x.vc.def("mul64", sInt, tMul(args[0].T(), args[1].T()))
+		m := pow2(64).String()
+		u64 := types.Typ[types.Uint64]
+		return []*Val{mkInt(u64, "(div "+p+" "+m+")"), mkInt(u64, "(mod "+p+" "+m+")")}
+	}
+	intrinsicDoc["math/bits.Mul64"] = "(hi, lo) = ((x*y) div 2^64, (x*y) mod 2^64)"
+
 	intrinsics["bytes.Equal"] = func(fr *Frame, st *State, args []*Val, pos token.Pos) []*Val {
 		x := fr.x
 		return []*Val{mkBool(x.seqEq(x.seqOf(st, args[0]), x.seqOf(st, args[1]), nil, nil))}
